@@ -19,7 +19,7 @@ EXPLANATION = (
     "in crate metadata (full build of bgpfu-lib), every explicit panic site in those impls is listed — each is reached by "
     "syntactically valid RPSL and, not being enclosed by a catch_unwind inside the per-candidate call, unwinds through the evaluation "
     "task: handle_task turns it into Err, try_join! fails and the whole run aborts. C15/R3 (context): the evaluation task's failure "
-    "aborts run (C04/R1). Not decided: which expressions an IRR can answer; panics other than explicit markers in dependencies."
+    "aborts run (C04/R1) — and a failed evaluation leaves the shared evaluator usable: with_connection puts the connection back on every path (same extraction as C17/R1), so the candidates evaluated after an unevaluable one are not failed by it. C15/R4: compare() yields nothing — and does not panic — for a policy whose evaluation failed, whether or not it is installed. Not decided: which expressions an IRR can answer; panics other than explicit markers in dependencies."
 )
 
 PANIC_MACROS = ("unimplemented", "todo", "panic", "unreachable", "assert", "assert_eq", "assert_ne")
@@ -51,6 +51,74 @@ def run(ctx):
                  holds=not early, key="C15/R1 Policies::evaluate early-exit")
     r2_workspace(chk, fx)
     r2_dependency(ctx, chk, fx)
+    r3_evaluator_survives(ctx, chk, fx)
+    r4_compare_tolerates_failure(chk, fx)
+
+
+def r3_evaluator_survives(ctx, chk, fx):
+    """All candidates of a run share one RpslEvaluator (one IRR connection).  An evaluation that fails must leave it usable —
+    otherwise every policy evaluated *after* an unevaluable one fails too (Error::AcquireConnection).  Same extraction as C17/R1."""
+    from . import c17
+
+    class _Ctx:
+        pass
+    sub = _Ctx()
+    sub.chk, sub.facts = _OnlyRule(_Rename(chk, "C17/R1", "C15/R3"), "C15/R3"), fx
+    c17.run(sub)
+
+
+class _OnlyRule:
+    """Forward only the instances of one (renamed) rule; drop the rest of the borrowed module's bookkeeping."""
+    def __init__(self, chk, rule):
+        object.__setattr__(self, "_c", chk)
+        object.__setattr__(self, "_r", rule)
+
+    def instance(self, rule, what, fn, loc=None, holds=True, key=None, detail=None):
+        if rule.replace("C17/R1", "C15/R3") != self._r:
+            return holds
+        return self._c.instance(rule, what, fn, loc, holds, key, detail)
+
+    def floor(self, *a, **k):
+        return None
+
+    def analysed(self, *a):
+        return self._c.analysed(*a)
+
+    def __getattr__(self, k):
+        if k in ("assumptions",):
+            return []
+        if k == "extra":
+            return {}
+        return getattr(self._c, k)
+
+    def __setattr__(self, k, v):
+        pass
+
+
+def r4_compare_tolerates_failure(chk, fx):
+    """A policy whose evaluation failed (ranges = None) reaches compare() together with all the others.  Whatever is or is not
+    installed for it, compare must neither emit anything for it nor panic: a panic here aborts the run after evaluation, so no
+    policy at all is loaded."""
+    from . import agent_common as AC
+    n, t, m, scr, rows = AC.decision_table(fx)
+    chk.analysed(n)
+    k = 0
+    for (e, i, arm, kind) in rows:
+        if e != "present/ranges=None":
+            continue
+        k += 1
+        chk.instance("C15/R4", "compare(evaluation failed, installed %s) => %s (must be: nothing, no panic)" % (i, kind), n,
+                     loc_of(arm.get("sp")) if arm else None, holds=kind == "none", key="C15/R4 compare (ranges=None,%s)=>%s" % (i, kind),
+                     detail=None if kind == "none" else "an unevaluable policy makes compare %s: every other policy of the run is lost with it" % kind)
+    chk.floor("C15/R4 compare rows for a failed evaluation", k, 2)
+    # no other panic-capable construct in compare's closure(s)
+    for n2, b in sorted(fx.mir.items()):
+        if not (n2 == AC.find_compare(fx) or n2.startswith(AC.find_compare(fx) + "::{closure")):
+            continue
+        for c in b.calls():
+            if (not c.macro) and c.is_fn("Option::<T>::unwrap", "Option::<T>::expect", "Result::<T, E>::unwrap", "Result::<T, E>::expect", "Index::index"):
+                chk.instance("C15/R4", "%s in compare" % T.short(c.name(), 2), n2, c.loc(), holds=False,
+                             key="C15/R4 compare panic-capable %s" % T.short(c.name(), 2))
 
 
 class _Rename:
